@@ -3,7 +3,7 @@
 //   fuzz::Stats& st = fuzz::stats();      process-wide counters
 //   st.evaluation();                       once per LLVMFuzzerTestOneInput
 //   st.label("class");  st.count("k");     histogram / counters
-//   st.nontrivial(bytes, size, "shown");   input satisfied the target's non-triviality rule (64-bit hash kept, capped)
+//   st.nontrivial(bytes, size, "shown");   (or nontrivialLazy(bytes, size, []{ return shown; })) input satisfied the target's non-triviality rule (64-bit hash kept, capped)
 //   fuzz::violation("oracle-id", "msg");   flush stats, print ORACLE-VIOLATION, __builtin_trap()
 //
 // Stats are written as JSON to the path in env VERIF_FUZZ_STATS (if set and non-empty) every kFlushEvery
@@ -56,7 +56,7 @@ inline std::string jsonEscape(const std::string& s) {
 
 struct Stats {
   static constexpr size_t kMaxHashes = 200000;
-  static constexpr uint64_t kFlushEvery = 4096;
+  static constexpr uint64_t kFlushEvery = 8192;
   static constexpr size_t kMaxSamples = 8;
 
   uint64_t evaluations = 0, excluded = 0;
@@ -80,13 +80,15 @@ struct Stats {
   void label(const std::string& l) { ++classes[l]; }
   void count(const std::string& k, int64_t d = 1) { counters[k] += d; }
   void excludedKnown(const std::string& key) { ++excluded; ++excludedBy[key]; }
-  void nontrivial(const uint8_t* data, size_t size, const std::string& shown) {
+  // `show` is only called when the input is kept as a sample
+  template <class ShowFn> void nontrivialLazy(const uint8_t* data, size_t size, ShowFn show) {
     ++nontrivialSeen;
     if (hashes.size() >= kMaxHashes) return;
     if (hashes.insert(fnv1a(data, size)).second) {
-      if (samples.size() < 5 || (hashes.size() % 9973 == 0 && samples.size() < kMaxSamples)) samples.push_back(shown);
+      if (samples.size() < 5 || (hashes.size() % 9973 == 0 && samples.size() < kMaxSamples)) samples.push_back(show());
     }
   }
+  void nontrivial(const uint8_t* data, size_t size, const std::string& shown) { nontrivialLazy(data, size, [&] { return shown; }); }
 
   void flush() const {
     if (path.empty()) return;
@@ -96,9 +98,8 @@ struct Stats {
     fprintf(f, "{\"evaluations\":%llu,\"distinct_nontrivial\":%llu,\"excluded_known\":%llu,\"hashes\":[",
             static_cast<unsigned long long>(evaluations), static_cast<unsigned long long>(hashes.size()), static_cast<unsigned long long>(excluded));
     bool first = true;
-    // sorted for a deterministic file
-    std::set<uint64_t> sorted(hashes.begin(), hashes.end());
-    for (auto h : sorted) { fprintf(f, "%s%llu", first ? "" : ",", static_cast<unsigned long long>(h)); first = false; }
+    // order is irrelevant: the driver forms the union over processes
+    for (auto h : hashes) { fprintf(f, "%s%llu", first ? "" : ",", static_cast<unsigned long long>(h)); first = false; }
     fprintf(f, "],\"samples\":[");
     first = true;
     for (const auto& s : samples) { fprintf(f, "%s%s", first ? "" : ",", jsonEscape(s).c_str()); first = false; }
